@@ -1,36 +1,61 @@
 """C12 -- OSCORE replay protection: a protected request is accepted at most once.
 
 1. TLC checks spec/ReplayWindow.tla exhaustively (window sizes 1..4, sequence
-   numbers 0..7, up to 6 arrivals, authentic/forged, Echo none/stale/fresh,
-   initialised and uninitialised start): the clauses over the accepted set and
-   the agreement of the index/bitfield design with them.
+   numbers 0..7, up to 5/6 arrivals, authentic/forged requests AND responses,
+   Echo none/stale/fresh, initialised and uninitialised start, Echo recovery
+   configured or not): the clauses over the accepted set and the agreement of
+   the index/seen-set design with them.
+   TLC checks spec/ReplayWindowBits.tla exhaustively: ReplayWindow's
+   is_valid/strike_out arithmetic transcribed line by line (index + bitfield)
+   in lock-step with the seen-set model and the statement's monitor over ALL
+   arrival sequences (any length) of a bounded number set per window size
+   W in {1,2,3,4,8}, including slides by W-1, W, W+1, more, and numbers next
+   to 2^40-1.
 2. spec -> code: every edge of the implementation-shaped state graph (TLC
-   prints each with a shortest path from an initial state) and simulated
-   behaviours with larger constants are replayed (i) on
-   aiocoap.oscore.ReplayWindow directly and (ii) through the full unprotect()
-   of real protected requests between two in-memory security contexts (forgery
-   = valid partial IV + corrupted ciphertext; Echo obtained through the real
-   4.01 exchange); outcome and _index/_bitfield are compared with the model's
+   prints each with a shortest path from an initial state), simulated
+   behaviours with the full vocabulary (five forgery flavours, forged
+   responses, five Echo flavours, two senders) and larger constants, and
+   TLC-simulated arrival sequences for the real window size 32 (and 64) are
+   replayed (i) on aiocoap.oscore.ReplayWindow directly and (ii) through the
+   full unprotect() of real protected messages between in-memory security
+   contexts; outcome and _index/_bitfield are compared with the model's
    prediction (difference = DRIFT).
-3. code -> spec: all recorded traces, plus random real-scale runs (default
-   window 32 and others), are validated by TLC against ReplayWindowTrace.tla,
-   which evaluates the clauses on the recorded accept/reject history.  Only a
-   clause found false by TLC on a real trace is a VIOLATION."""
+3. code -> spec: all recorded traces, plus random real-scale runs and directed
+   adversarial families (forgeries before the genuine message at every
+   position; Echo recovery under adversarial orderings), are validated by TLC
+   against ReplayWindowTrace.tla, which evaluates the clauses on the recorded
+   accept/reject history.  Only a clause found false by TLC on a real trace
+   is a VIOLATION."""
 
 import copy
 import json
 import os
 import random
 import sys
+import time
 from multiprocessing import Pool
 
 from harness import tlc, MachineryError, runner, oscore_env
 
-MC_CFG = """SPECIFICATION Spec
+# vocabulary of the exhaustive run and of the edge enumeration: one representative per class of the
+# model (the model does not distinguish forgery flavours, non-fresh Echo flavours or senders; the
+# driver varies them on the edges, and the simulation draws from the full vocabulary)
+VOCAB_BASE = """  Hows = {"flip"}
+  EchoKinds = {"none", "stale", "fresh"}
+  Clients = {1}"""
+VOCAB_FULL = """  Hows = {"flip", "trunc", "key", "ctx", "piv"}
+  EchoKinds = {"none", "stale", "old", "near", "fresh"}
+  Clients = {1, 2}"""
+
+MC_CFG = (
+    """SPECIFICATION Spec
 CONSTANTS
   Ws = {1, 2, 3, 4}
-  MaxN = 7
+  MaxN = %(maxn)d
   MaxLen = %(maxlen)d
+"""
+    + VOCAB_BASE
+    + """
 VIEW View
 INVARIANT NoBad
 INVARIANT Agreement
@@ -42,31 +67,92 @@ INVARIANT C12_ForgeryNoEffect
 INVARIANT C12_UninitialisedNeedsEcho
 INVARIANT C12_ResponseNoEffect
 """
+)
 
-EDGE_CFG = """SPECIFICATION EdgeSpec
+EDGE_CFG = (
+    """SPECIFICATION EdgeSpec
 CONSTANTS
   Ws = {1, 2, 3, 4}
   MaxN = 7
   MaxLen = 6
+"""
+    + VOCAB_BASE
+    + """
 VIEW EdgeView
 """
+)
 
-SIM_CFG = """SPECIFICATION Spec
+SIM_CFG = (
+    """SPECIFICATION SimSpec
 CONSTANTS
   Ws = {1, 2, 3, 4, 5, 8}
   MaxN = 20
   MaxLen = 16
+"""
+    + VOCAB_FULL
+    + """
 INVARIANT NoBad
 """
+)
 
-TRACE_CFG = """SPECIFICATION TSpec
+TRACE_CFG = (
+    """SPECIFICATION TSpec
 CONSTANTS
   Ws = {1}
   MaxN = 7
   MaxLen = 6
+"""
+    + VOCAB_FULL
+    + """
 INVARIANT Report
 CHECK_DEADLOCK FALSE
 """
+)
+
+TOP = 1000000  # the model's stand-in for the largest sender sequence number
+REAL_TOP = 2**40 - 1
+NEAR = 1 << 19  # model numbers within that distance of TOP are translated to the neighbourhood of 2^40-1
+
+BITS_INVARIANTS = """INVARIANT NoBad
+INVARIANT Agreement
+INVARIANT BitsAreSeen
+INVARIANT BitsDecideAlike
+INVARIANT BitsIntAlike
+INVARIANT BitsMeanStatement
+"""
+
+BITS_CFG = (
+    """SPECIFICATION BitsSpec
+CONSTANTS
+  Ws = {%(ws)s}
+  MaxN = 7
+  MaxLen = 6
+  Hows = {}
+  EchoKinds = {"none"}
+  Clients = {1}
+  Top = %(top)d
+  JumpAfter = 0
+  NumsOf <- %(nums)s
+VIEW BitsView
+"""
+    + BITS_INVARIANTS
+)
+
+BITS_SIM_CFG = (
+    """SPECIFICATION BitsSimSpec
+CONSTANTS
+  Ws = {32, 64}
+  MaxN = 7
+  MaxLen = %(maxlen)d
+  Hows = {}
+  EchoKinds = {"none"}
+  Clients = {1}
+  Top = %(top)d
+  JumpAfter = %(jump)d
+  NumsOf <- NumsNone
+"""
+    + BITS_INVARIANTS
+)
 
 CLAUSES = [
     "C12_AcceptAtMostOnce",
@@ -78,7 +164,13 @@ CLAUSES = [
     "C12_ResponseNoEffect",
 ]
 
+FORGERIES = ["flip", "trunc", "key", "ctx", "piv"]
+RESP_FORGERIES = ["flip", "trunc", "key"]
+NONFRESH = ["stale", "old", "near"]
+
 STALE_ECHO = b"\x5a" * 8
+OTHER_SECRET = bytes.fromhex("a1a2a3a4a5a6a7a8a9aaabacadaeaf10")
+OTHER_IDCTX = b"\xc7\x12"
 
 _G = {}
 
@@ -90,13 +182,36 @@ def _env():
 
         _G["oscore"] = oscore
         _G["aiocoap"] = aiocoap
-        _G["cls"] = oscore_env.make_context_class(oscore)
+        cls = oscore_env.make_context_class(oscore)
+
+        class Peer(cls):
+            """The peer (environment, not the code under judgement) may use every sender sequence
+            number up to 2^40-1, as any other implementation could."""
+
+            def new_sequence_number(self):
+                r = self.sender_sequence_number
+                self.sender_sequence_number += 1
+                return r
+
+        _G["cls"] = cls
+        _G["peer"] = Peer
     return _G["oscore"], _G["aiocoap"]
 
 
-def projection(w):
-    """(idx, seen) of a ReplayWindow; idx -1 when the attributes the property
-    anchors name are not there (degrade to black-box), -2 when uninitialised."""
+# -- numbers: the model's Top stands for 2^40-1 ---------------------------------------
+def real_of(m, top):
+    return m if top is None or m < top - NEAR else REAL_TOP - (top - m)
+
+
+def model_of(r, top):
+    if top is not None and r > (1 << 39):
+        r = r - REAL_TOP + top
+    return r if 0 <= r <= (1 << 30) else (1 << 30)  # out of TLC's range: shows as a difference, never as a crash
+
+
+def projection(w, top=None):
+    """(idx, seen) of a ReplayWindow in model numbers; idx -1 when the attributes the
+    property anchors name are not there (degrade to black-box), -2 when uninitialised."""
     try:
         idx = w._index
         bits = w._bitfield
@@ -104,20 +219,36 @@ def projection(w):
         return -1, []
     if idx is None:
         return -2, []
-    if not isinstance(idx, int) or not isinstance(bits, int) or bits < 0:
+    if not isinstance(idx, int) or not isinstance(bits, int) or bits < 0 or idx < 0:
         return -1, []
     seen = []
     i = 0
-    while bits:
+    while bits and i < 4096:
         if bits & 1:
-            seen.append(idx + i)
+            seen.append(model_of(idx + i, top))
         bits >>= 1
         i += 1
-    return idx, seen
+    return model_of(idx, top), sorted(set(seen))
+
+
+def norm_event(ev):
+    """Events of older replay files carry neither sender nor forgery flavour."""
+    e = dict(ev)
+    e.setdefault("k", "req")
+    e.setdefault("c", 1)
+    e["auth"] = bool(e.get("auth", True))
+    e.setdefault("how", "genuine" if e["auth"] else "flip")
+    e.setdefault("echo", "none")
+    e.setdefault("v", e.get("flip", 0))
+    return e
 
 
 def start_record(s):
-    return {"k": "start", "W": s["W"], "init": bool(s["init"]), "hasEcho": bool(s.get("hasEcho", True)), "n": -1, "auth": False, "echo": "none", "res": "start", "idx": -1, "seen": [], "why": ""}
+    return {"k": "start", "c": 0, "W": s["W"], "init": bool(s["init"]), "hasEcho": bool(s.get("hasEcho", True)), "n": -1, "auth": False, "how": "start", "echo": "none", "res": "start", "idx": -1, "seen": [], "why": ""}
+
+
+def record(s, e, res, idx, seen, why):
+    return dict(start_record(s), k=e["k"], c=e["c"], n=e["n"], auth=bool(e["auth"]), how=e["how"], echo=e["echo"], res=res, idx=idx, seen=seen, why=why)
 
 
 def run_direct(s):
@@ -128,6 +259,7 @@ def run_direct(s):
     are only ever driven through the real unprotect()."""
     oscore, _ = _env()
     calls = [0]
+    top = s.get("top")
 
     def cb():
         calls[0] += 1
@@ -137,13 +269,14 @@ def run_direct(s):
     w.initialize_empty()
     trace = [start_record(s)]
     for ev in s["events"]:
-        n, auth, echo = ev["n"], ev["auth"], ev["echo"]
-        if ev.get("k", "req") != "req":
+        ev = norm_event(ev)
+        if ev["k"] != "req":
             continue
+        n = real_of(ev["n"], top)
         why = ""
         try:
             ok = w.is_valid(n)  # a forged message gets no further than this query
-            if ok and auth:
+            if ok and ev["auth"]:
                 w.strike_out(n)
                 res = "acc"
             else:
@@ -151,102 +284,246 @@ def run_direct(s):
         except Exception as e:  # e.g. strike_out refusing: counts as not accepted
             res = "rej"
             why = type(e).__name__
-        idx, seen = projection(w)
-        trace.append(dict(start_record(s), k="req", n=n, auth=bool(auth), echo=echo, res=res, idx=idx, seen=seen, why=why))
+        idx, seen = projection(w, top)
+        trace.append(record(s, ev, res, idx, seen, why))
     return {"trace": trace, "meta": {"callbacks": calls[0], "unexpected": []}}
 
 
-def run_unprotect(s):
-    """Real protected requests from a client context, unprotected by a server
-    context sharing the keys."""
-    oscore, aiocoap = _env()
-    from aiocoap.message import Direction
+def _minimal(n):
+    return n.to_bytes(max(1, (n.bit_length() + 7) // 8), "big")
 
-    cls = _G["cls"]
-    rng = random.Random(s.get("seed", 0))
-    echo_value = bytes(rng.getrandbits(8) for _ in range(8)) if s.get("hasEcho", True) else None
-    client = oscore_env.new_context(oscore, b"\x01", b"", window=s["W"], cls=cls)
-    server = oscore_env.new_context(oscore, b"", b"\x01", window=s["W"], initialized=bool(s["init"]), echo_recovery=echo_value, cls=cls)
-    trace = [start_record(s)]
-    unexpected = []
-    learned_echo = None
-    echo_exchanges = 0
-    for i, ev in enumerate(s["events"]):
-        n, auth, echo = ev["n"], ev["auth"], ev["echo"]
-        if ev.get("k", "req") == "resp":
-            # role reversal: the judged context sent a request; the peer answers with a response
-            # that carries its own Partial IV n (a notification, or the nonce could not be reused)
-            why = ""
+
+class Session:
+    """One life time of the judged (recipient) context and its peer: real protected messages
+    from the peer's senders, genuine or tampered, unprotected by the judged context."""
+
+    def __init__(self, s):
+        oscore, aiocoap = _env()
+        self.oscore, self.aiocoap, self.s = oscore, aiocoap, s
+        self.top = s.get("top")
+        W = s["W"]
+        rng = random.Random(s.get("seed", 0))
+        has_echo = s.get("hasEcho", True)
+        self.echo_value = bytes(rng.getrandbits(8) for _ in range(8)) if has_echo else None
+        self.old_value = bytes(rng.getrandbits(8) for _ in range(8))  # what the earlier life time issued
+        if self.old_value == self.echo_value:
+            self.old_value = bytes(b ^ 0xFF for b in self.old_value)
+        Peer, cls = _G["peer"], _G["cls"]
+        self.peers = {c: oscore_env.new_context(oscore, b"\x01", b"", window=W, cls=Peer) for c in (1, 2)}
+        self.judged = oscore_env.new_context(oscore, b"", b"\x01", window=W, initialized=bool(s["init"]), echo_recovery=self.echo_value, cls=cls)
+        # another security context with the same sender ID: other master secret / other ID context
+        self.other_key = oscore_env.new_context(oscore, b"\x01", b"", secret=OTHER_SECRET, window=W, cls=Peer)
+        self.other_ctx = oscore_env.new_context(oscore, b"\x01", b"", id_context=OTHER_IDCTX, window=W, cls=Peer)
+        self.learned = {1: None, 2: None}
+        self.old_learned = None
+        self.cache = {}
+        self.unexpected = []
+        self.echo_exchanges = 0
+        self.old_exchanges = 0
+
+    # -- the peer's side ---------------------------------------------------------------
+    def plain_request(self, n, eb):
+        a = self.aiocoap
+        msg = a.Message(code=a.POST, uri_path=("r", str(n)), payload=b"p%d" % n)
+        if eb is not None:
+            msg.opt.echo = eb
+        return msg
+
+    def protect_with(self, ctx, n, eb):
+        a = self.aiocoap
+        msg = self.plain_request(n, eb)
+        ctx.sender_sequence_number = n
+        outer, req_id = ctx.protect(msg)
+        outer.mtype, outer.mid, outer.token = a.NON, (n + 1) & 0xFFFF, b""
+        return outer.encode(), msg.payload, req_id
+
+    def genuine(self, c, n, eb):
+        """The one genuine message of sender c with (real) number n and that Echo value: made once,
+        so that replays are the same bytes and tampered copies are copies of what arrives genuine."""
+        key = (c, n, eb)
+        if key not in self.cache:
+            self.cache[key] = self.protect_with(self.peers[c], n, eb)
+        return self.cache[key]
+
+    def learn_old(self):
+        """The value an EARLIER life time of the judged context issued, learned then through the real
+        4.01 exchange; that life time's state is gone (the judged context is the restarted process)."""
+        if self.old_learned is None:
+            oscore, a = self.oscore, self.aiocoap
+            earlier = oscore_env.new_context(oscore, b"", b"\x01", window=self.s["W"], initialized=False, echo_recovery=self.old_value, cls=_G["cls"])
+            wire, _pl, req_id = self.protect_with(self.peers[1], 7, None)
             try:
-                q, rid_s = server.protect(aiocoap.Message(code=aiocoap.GET, uri_path=("obs", str(i)), observe=0))
-                q.mtype, q.mid, q.token = aiocoap.NON, 0x4000 + i, b""
-                fresh_client = copy.copy(client)
-                fresh_client.recipient_replay_window = oscore.ReplayWindow(s["W"], lambda: None)
-                fresh_client.recipient_replay_window.initialize_empty()
-                _p, rid_c = fresh_client.unprotect(aiocoap.Message.decode(q.encode()))
-                rid_c.get_reusable_kid_and_piv()  # not the first response: own Partial IV
-                client.sender_sequence_number = n
-                note = aiocoap.Message(code=aiocoap.CONTENT, payload=b"n%d" % n, observe=i + 1)
-                ro, _ = client.protect(note, rid_c)
-                ro.mtype, ro.mid, ro.token = aiocoap.NON, 0x5000 + i, b""
+                earlier.unprotect(a.Message.decode(wire))
+                self.unexpected.append("earlier life time accepted a request on an uninitialised window")
+                self.old_learned = self.old_value
+            except oscore.ReplayErrorWithEcho as e:
+                self.old_learned = self.echo_from_401(e, 1, req_id, 0x6fff) or self.old_value
+                self.old_exchanges += 1
             except Exception as e:
-                raise MachineryError("could not produce a response with its own Partial IV: %r" % (e,))
-            try:
-                plain, _rid = server.unprotect(aiocoap.Message.decode(ro.encode()), rid_s)
-                res = "acc"
-                if plain.payload != note.payload:
-                    unexpected.append("event %d: response unprotected to a different payload" % i)
-            except oscore.ProtectionInvalid as e:
-                res, why = "rej", type(e).__name__
-            except Exception as e:
-                res, why = "rej", type(e).__name__
-                unexpected.append("event %d (response, n=%d): unprotect raised %r" % (i, n, e))
-            idx, seen = projection(server.recipient_replay_window)
-            trace.append(dict(start_record(s), k="resp", n=n, auth=True, echo="none", res=res, idx=idx, seen=seen, why=why))
-            continue
-        msg = aiocoap.Message(code=aiocoap.POST, uri_path=("r", str(i)), payload=b"p%d" % n)
-        if echo == "stale":
-            msg.opt.echo = STALE_ECHO
-        elif echo == "fresh":
-            msg.opt.echo = learned_echo if learned_echo is not None else (server.echo_recovery or STALE_ECHO)
-        client.sender_sequence_number = n
-        outer, req_id = client.protect(msg)
-        outer.mtype, outer.mid, outer.token = aiocoap.NON, (i + 1) & 0xFFFF, b""
-        wire = bytearray(outer.encode())
-        if not auth:
-            # valid-looking partial IV, ciphertext (or tag) corrupted
-            npay = len(outer.payload)
-            pos = len(wire) - 1 - (ev.get("flip", 0) % npay)
-            wire[pos] ^= 1 << (ev.get("flip", 0) % 8)
-        incoming = aiocoap.Message.decode(bytes(wire))
+                self.unexpected.append("earlier life time: %r instead of a 4.01 with Echo" % (e,))
+                self.old_learned = self.old_value
+        return self.old_learned
+
+    def echo_from_401(self, err, c, req_id, mid):
+        a = self.aiocoap
+        try:
+            resp = err.to_message()
+            resp.mtype, resp.mid, resp.token = a.NON, mid, b""
+            rplain, _ = self.peers[c].unprotect(a.Message.decode(resp.encode()), req_id)
+            if rplain.code != a.UNAUTHORIZED or rplain.opt.echo is None:
+                self.unexpected.append("4.01 Echo exchange yielded %r %r" % (rplain.code, rplain.opt.echo))
+            return rplain.opt.echo
+        except Exception as e2:
+            self.unexpected.append("Echo response not usable: %r" % (e2,))
+            return None
+
+    def echo_bytes(self, c, kind, v):
+        if kind == "none":
+            return None
+        if kind == "stale":
+            return STALE_ECHO
+        if kind == "old":
+            return self.learn_old()
+        fresh = self.learned[c] or self.judged.echo_recovery or STALE_ECHO
+        if kind == "fresh":
+            return fresh
+        # near: the issued value cut short or extended
+        return [fresh[:-1], fresh + b"\x00", fresh[: len(fresh) // 2], b"\x00" + fresh, fresh[1:]][v % 5]
+
+    def reencode(self, m):
+        from aiocoap.message import Direction
+
+        m.direction = Direction.OUTGOING
+        return m.encode()
+
+    def tamper(self, wire, how, v):
+        a = self.aiocoap
+        m = a.Message.decode(wire)
+        if how == "flip":
+            npay = max(1, len(m.payload))
+            b = bytearray(wire)
+            b[len(b) - 1 - (v % npay)] ^= 1 << (v % 8)
+            return bytes(b)
+        if how == "trunc":
+            full = len(m.payload)
+            k = [0, 1, 7, 8, full - 1, full - 8, full // 2][v % 7]
+            m.payload = m.payload[: max(0, min(full - 1, k))]
+            return self.reencode(m)
+        raise MachineryError("unknown tampering %r" % how)
+
+    def forged_request(self, e, n, eb):
+        how, v = e["how"], e["v"]
+        if how in ("flip", "trunc"):
+            return self.tamper(self.genuine(e["c"], n, eb)[0], how, v)
+        if how == "key":
+            return self.protect_with(self.other_key, n, eb)[0]
+        if how == "ctx":
+            return self.protect_with(self.other_ctx, n, eb)[0]
+        if how == "piv":
+            # a genuine message of a neighbouring number, its Partial IV rewritten to n
+            src = n + 1 if (n < REAL_TOP and (v % 2 == 0 or n == 0)) else n - 1
+            a = self.aiocoap
+            m = a.Message.decode(self.genuine(e["c"], src, eb)[0])
+            opt = m.opt.oscore
+            k = opt[0] & 7
+            piv = _minimal(n)
+            m.opt.oscore = bytes([(opt[0] & 0xF8) | len(piv)]) + piv + opt[1 + k :]
+            return self.reencode(m)
+        raise MachineryError("unknown forgery flavour %r" % how)
+
+    # -- events ------------------------------------------------------------------------
+    def request(self, i, e):
+        oscore, a = self.oscore, self.aiocoap
+        n = real_of(e["n"], self.top)
+        eb = self.echo_bytes(e["c"], e["echo"], e["v"])
+        if e["auth"]:
+            wire, payload, req_id = self.genuine(e["c"], n, eb)
+        else:
+            wire, payload, req_id = self.forged_request(e, n, eb), None, None
         why = ""
         try:
-            plain, _rid = server.unprotect(incoming)
+            incoming = a.Message.decode(wire)
+        except Exception as ex:
+            raise MachineryError("driver produced an undecodable message (%s): %r" % (e, ex))
+        try:
+            plain, _rid = self.judged.unprotect(incoming)
             res = "acc"
-            if plain.payload != msg.payload:
-                unexpected.append("event %d: accepted with different payload" % i)
-        except oscore.ReplayErrorWithEcho as e:
+            if payload is not None and plain.payload != payload:
+                self.unexpected.append("event %d: accepted with different payload" % i)
+        except oscore.ReplayErrorWithEcho as ex:
             res, why = "rej", "ReplayErrorWithEcho"
-            # the real 4.01 exchange: the client learns the Echo value from the protected response
-            try:
-                resp = e.to_message()
-                resp.mtype, resp.mid, resp.token = aiocoap.NON, 0x7000 + i, b""
-                rin = aiocoap.Message.decode(resp.encode())
-                rplain, _ = client.unprotect(rin, req_id)
-                learned_echo = rplain.opt.echo
-                echo_exchanges += 1
-                if rplain.code != aiocoap.UNAUTHORIZED or learned_echo != server.echo_recovery:
-                    unexpected.append("event %d: 4.01 Echo exchange yielded %r %r" % (i, rplain.code, learned_echo))
-            except Exception as e2:
-                unexpected.append("event %d: Echo response not usable: %r" % (i, e2))
-        except oscore.ProtectionInvalid as e:
-            res, why = "rej", type(e).__name__
-        except Exception as e:
-            res, why = "rej", type(e).__name__
-            unexpected.append("event %d (n=%d auth=%s): unprotect raised %r" % (i, n, auth, e))
-        idx, seen = projection(server.recipient_replay_window)
-        trace.append(dict(start_record(s), k="req", n=n, auth=bool(auth), echo=echo, res=res, idx=idx, seen=seen, why=why))
-    return {"trace": trace, "meta": {"unexpected": unexpected, "echo_exchanges": echo_exchanges}}
+            if e["auth"]:
+                # the real 4.01 exchange: this sender learns the Echo value from the protected response
+                got = self.echo_from_401(ex, e["c"], req_id, 0x7000 + (i & 0xFFF))
+                if got is not None:
+                    self.learned[e["c"]] = got
+                    self.echo_exchanges += 1
+                    if got != self.judged.echo_recovery:
+                        self.unexpected.append("event %d: 4.01 carried %r, not the context's Echo value" % (i, got))
+            else:
+                self.unexpected.append("event %d: a message failing authentication was answered with an Echo challenge" % i)
+        except oscore.ProtectionInvalid as ex:
+            res, why = "rej", type(ex).__name__
+        except Exception as ex:
+            res, why = "rej", type(ex).__name__
+            if e["auth"] or e["how"] == "flip":
+                self.unexpected.append("event %d (n=%d %s): unprotect raised %r" % (i, e["n"], e["how"], ex))
+        return res, why
+
+    def response(self, i, e):
+        """Role reversal: the judged context sent a request; the peer answers with a response that
+        carries its own Partial IV n (a notification, or the nonce could not be reused)."""
+        oscore, a = self.oscore, self.aiocoap
+        n = real_of(e["n"], self.top)
+        client = self.peers[1]
+        try:
+            q, rid_s = self.judged.protect(a.Message(code=a.GET, uri_path=("obs", str(i)), observe=0))
+            q.mtype, q.mid, q.token = a.NON, 0x4000 + (i & 0xFFF), b""
+            fresh_client = copy.copy(client)
+            fresh_client.recipient_replay_window = oscore.ReplayWindow(self.s["W"], lambda: None)
+            fresh_client.recipient_replay_window.initialize_empty()
+            _p, rid_c = fresh_client.unprotect(a.Message.decode(q.encode()))
+            rid_c.get_reusable_kid_and_piv()  # not the first response: own Partial IV
+            signer = self.other_key if e["how"] == "key" else client
+            signer.sender_sequence_number = n
+            note = a.Message(code=a.CONTENT, payload=b"n%d" % n, observe=(i + 1) & 0xFFFF)
+            ro, _ = signer.protect(note, rid_c)
+            ro.mtype, ro.mid, ro.token = a.NON, 0x5000 + (i & 0xFFF), b""
+            wire = ro.encode()
+            if e["how"] in ("flip", "trunc"):
+                wire = self.tamper(wire, e["how"], e["v"])
+            elif e["how"] not in ("genuine", "key"):
+                raise MachineryError("no such response forgery: %r" % e["how"])
+            incoming = a.Message.decode(wire)
+        except MachineryError:
+            raise
+        except Exception as ex:
+            raise MachineryError("could not produce a response with its own Partial IV: %r" % (ex,))
+        why = ""
+        try:
+            plain, _rid = self.judged.unprotect(incoming, rid_s)
+            res = "acc"
+            if e["auth"] and plain.payload != note.payload:
+                self.unexpected.append("event %d: response unprotected to a different payload" % i)
+        except oscore.ProtectionInvalid as ex:
+            res, why = "rej", type(ex).__name__
+        except Exception as ex:
+            res, why = "rej", type(ex).__name__
+            if e["auth"] or e["how"] == "flip":
+                self.unexpected.append("event %d (response, n=%d %s): unprotect raised %r" % (i, e["n"], e["how"], ex))
+        return res, why
+
+
+def run_unprotect(s):
+    """Real protected messages from the peer's contexts, unprotected by the judged context sharing the keys."""
+    ses = Session(s)
+    trace = [start_record(s)]
+    for i, ev in enumerate(s["events"]):
+        e = norm_event(ev)
+        res, why = ses.response(i, e) if e["k"] == "resp" else ses.request(i, e)
+        idx, seen = projection(ses.judged.recipient_replay_window, ses.top)
+        trace.append(record(s, e, res, idx, seen, why))
+    return {"trace": trace, "meta": {"unexpected": ses.unexpected, "echo_exchanges": ses.echo_exchanges, "old_exchanges": ses.old_exchanges}}
 
 
 def run_schedule(s):
@@ -274,7 +551,7 @@ def run_all(scheds):
 
 # -- spec -> code ---------------------------------------------------------------
 def ev_of(e):
-    return {"k": e["k"], "n": e["n"], "auth": bool(e["auth"]), "echo": e["echo"]}
+    return {"k": e["k"], "c": e["c"], "n": e["n"], "auth": bool(e["auth"]), "how": e["how"], "echo": e["echo"], "v": 0}
 
 
 def exp_of(e):
@@ -291,7 +568,7 @@ def schedules_from_edges(vals):
     return out
 
 
-def schedules_from_behaviours(behs):
+def schedules_from_behaviours(behs, origin="sim", top=None):
     out = []
     for beh in behs:
         if not beh:
@@ -303,23 +580,57 @@ def schedules_from_behaviours(behs):
             evs.append(ev_of(a))
             exp.append(exp_of(a))
         if evs:
-            out.append(({"W": o["W"], "init": bool(o["init"]), "hasEcho": bool(o["hasEcho"]), "events": evs, "origin": "sim"}, exp))
+            s = {"W": o["W"], "init": bool(o["init"]), "hasEcho": bool(o["hasEcho"]), "events": evs, "origin": origin}
+            if top is not None:
+                s["top"] = top
+            out.append((s, exp))
     return out
 
 
+def decorate(s, rng):
+    """The edges are enumerated with one representative per class of the model (forgery = bit flip,
+    non-fresh Echo = "stale", one sender); the classes' other members are drawn here.  An edge that
+    ends in a forged request is closed with the genuine message of that number and its replay:
+    the forgery must not have blocked it, and it must be accepted exactly once."""
+    evs = []
+    for e in s["events"]:
+        e = dict(e, v=rng.randint(0, 255))
+        if not e["auth"] and rng.random() < 0.75:
+            e["how"] = rng.choice(RESP_FORGERIES if e["k"] == "resp" else FORGERIES)
+        if e["k"] == "req":
+            if e["echo"] == "stale":
+                e["echo"] = rng.choice(NONFRESH)
+            e["c"] = rng.choice([1, 2])
+        evs.append(e)
+    last = evs[-1]
+    if last["k"] == "req" and not last["auth"]:
+        g = dict(last, auth=True, how="genuine")
+        evs += [g, dict(g)]
+    return dict(s, events=evs)
+
+
 def compare(exp, trace):
-    """First difference between the model's prediction and the recorded trace."""
-    if len(exp) != len(trace) - 1:
-        return None  # (direct binding: request events only; compared by TLC on the recorded trace)
+    """First difference between the model's prediction and the recorded trace (the trace may be
+    longer than the prediction: closing events are judged by TLC on the trace alone)."""
+    if len(exp) > len(trace) - 1:
+        return None  # (direct binding drops non-request events; compared by TLC on the recorded trace)
     for i, (x, t) in enumerate(zip(exp, trace[1:])):
         if x["res"] != t["res"]:
-            return "event %d (n=%d auth=%s echo=%s): model %s, implementation %s (%s)" % (i, t["n"], t["auth"], t["echo"], x["res"], t["res"], t["why"])
+            return "event %d (n=%d %s echo=%s): model %s, implementation %s (%s)" % (i, t["n"], t["how"], t["echo"], x["res"], t["res"], t["why"])
         if t["idx"] != -1 and (x["idx"] != t["idx"] or x["seen"] != sorted(t["seen"])):
             return "event %d (n=%d): model window index=%s seen=%s, implementation index=%s seen=%s" % (i, t["n"], x["idx"], x["seen"], t["idx"], sorted(t["seen"]))
     return None
 
 
 # -- random real-scale schedules ---------------------------------------------------
+def _forged(rng, k, c, n, echo):
+    return {"k": k, "c": c, "n": n, "auth": False, "how": rng.choice(RESP_FORGERIES if k == "resp" else FORGERIES), "echo": echo, "v": rng.randint(0, 255)}
+
+
+def _genuine(rng, c, n, echo):
+    return {"k": "req", "c": c, "n": n, "auth": True, "how": "genuine", "echo": echo, "v": rng.randint(0, 255)}
+
+
 def random_schedule(rng, binding):
     W = rng.choice([32, 32, 32, 32, 64, 7, 1, 2, 100, 33])
     init = rng.random() < 0.7 if binding == "unprotect" else True
@@ -333,18 +644,23 @@ def random_schedule(rng, binding):
     have_init = init
     for _ in range(length):
         if not have_init and rng.random() < 0.6:
-            echo = rng.choice(["none", "stale", "none", "fresh"])
+            echo = rng.choice(["none", "stale", "none", "fresh", "old", "near"])
         elif not have_init:
             echo = "fresh"
         else:
-            echo = rng.choice(["none"] * 8 + ["stale", "fresh"])
+            echo = rng.choice(["none"] * 8 + ["stale", "fresh", "old", "near"])
+        c = rng.choice([1, 1, 2])
         kind = rng.choice(["new", "new", "new", "skip", "jump", "replay", "old", "below", "edge", "genuine", "resp"])
         if kind == "resp" and binding == "unprotect":
             # a (late) response of the peer with its own Partial IV: below, inside or above the window.
             # The peer numbers requests and responses from one counter: never a number a request uses.
             m = max(0, front + rng.choice([-W - 3, -W, -W // 2 - 1, -2, -1, 1, 2, W + 5]))
             if m not in sent and m not in pending_genuine and all(x["n"] != m for x in evs):
-                evs.append({"k": "resp", "n": m, "auth": True, "echo": "none"})
+                if rng.random() < 0.4:
+                    evs.append(_forged(rng, "resp", 1, m, "none"))  # tampered on its way: no effect whatsoever
+                    if rng.random() < 0.5:
+                        continue
+                evs.append({"k": "resp", "c": 1, "n": m, "auth": True, "how": "genuine", "echo": "none", "v": 0})
                 used_by_resp.add(m)
                 if not have_init and has_echo:
                     have_init = True
@@ -371,15 +687,14 @@ def random_schedule(rng, binding):
             n = max(0, front - W + rng.choice([-1, 0, 1]))
         if n in used_by_resp:
             continue
-        auth = rng.random() >= 0.25
-        e = {"k": "req", "n": n, "auth": auth, "echo": echo}
-        if not auth:
-            e["flip"] = rng.randint(0, 200)
-            pending_genuine.append(n)
-        else:
+        if rng.random() >= 0.25:
+            e = _genuine(rng, c, n, echo)
             sent.append(n)
             if echo == "fresh" and has_echo:
                 have_init = True
+        else:
+            e = _forged(rng, "req", c, n, echo)
+            pending_genuine.append(n)
         evs.append(e)
     return {
         "W": W,
@@ -392,29 +707,158 @@ def random_schedule(rng, binding):
     }
 
 
+def forgery_schedule(rng):
+    """Directed family 1: a stream of genuine requests (new, skipped, out of order, jumps beyond the
+    window), and at EVERY position forged traffic first: a tampered copy of the very message that is
+    about to arrive, plus forgeries of every flavour carrying numbers inside (seen and unseen),
+    below and above the window, plus forged responses.  Then the genuine message, sometimes its
+    replay; at the end every number once more."""
+    W = rng.choice([32, 32, 32, 8, 4, 64, 2])
+    top = rng.random() < 0.25  # the stream ends next to 2^40-1
+    front = rng.randint(0, 40)
+    evs, order = [], []
+    held = []
+    for step in range(rng.randint(8, 16)):
+        move = rng.choice(["new", "new", "skip", "hold", "release", "jump"])
+        if move == "release" and held:
+            n = held.pop(rng.randrange(len(held)))
+        elif move == "hold":
+            front += 2
+            held.append(front - 1)
+            n = front
+        elif move == "skip":
+            front += rng.randint(2, W // 2 + 2)
+            n = front
+        elif move == "jump":
+            front += W + rng.choice([-1, 0, 1, 2, 17])
+            n = front
+        else:
+            front += 1
+            n = front
+        c = rng.choice([1, 2])
+        evs.append(dict(_forged(rng, "req", c, n, "none"), how=rng.choice(["flip", "flip", "trunc"])))  # the copy arrives first
+        for _ in range(rng.randint(0, 2)):
+            m = max(0, front + rng.choice([-W - 2, -W, -W + 1, -3, -1, 0, 1, 2, W, W + 1, 3 * W]))
+            if rng.random() < 0.25:
+                evs.append(_forged(rng, "resp", 1, m, "none"))
+            else:
+                evs.append(_forged(rng, "req", rng.choice([1, 2]), m, rng.choice(["none", "none", "fresh", "stale"])))
+        evs.append(_genuine(rng, c, n, "none"))
+        order.append((c, n))
+        if rng.random() < 0.3:
+            evs.append(_genuine(rng, c, n, "none"))
+    for c, n in order:
+        evs.append(_genuine(rng, c, n, "none"))
+    s = {"W": W, "init": True, "hasEcho": rng.random() < 0.5, "binding": "unprotect", "events": evs, "origin": "forgery-family", "seed": rng.randint(0, 2**31)}
+    if top:
+        shift = TOP - front
+        s["top"] = TOP
+        s["events"] = [dict(e, n=e["n"] + shift) if e["n"] + shift <= TOP else dict(e, n=TOP) for e in evs]
+        # (numbers above the stream's end are clipped to Top: there is nothing above 2^40-1)
+    return s
+
+
+def recovery_schedule(rng):
+    """Directed family 2: the window is uninitialised (state lost).  Two senders' requests, forged
+    traffic and responses before recovery; Echo values that are stale, from an earlier life time or
+    nearly right; the recovery request -- often with a number LOWER than one already rejected, often
+    preceded by its own tampered copy --; then its replay, the other sender's recovery attempt below
+    and above it, the earlier rejected messages again (same bytes), everything twice."""
+    W = rng.choice([32, 32, 8, 4, 2, 1, 64])
+    has_echo = rng.random() < 0.85
+    base = rng.randint(W + 2, W + 60)
+    evs = []
+    rejected = []
+    for _ in range(rng.randint(2, 7)):  # before recovery
+        c = rng.choice([1, 2])
+        n = base + rng.randint(-W - 1, W + 3)
+        r = rng.random()
+        if r < 0.55:
+            e = _genuine(rng, c, n, rng.choice(["none", "none", "stale", "old", "near"]))
+            rejected.append(e)
+        elif r < 0.8:
+            e = _forged(rng, "req", c, n, rng.choice(["none", "fresh", "near"]))
+        else:
+            e = _forged(rng, "resp", 1, n, "none")
+        evs.append(e)
+    # the recovery request
+    c = rng.choice([1, 2])
+    if rejected and rng.random() < 0.6:
+        r = max(0, min(e["n"] for e in rejected) - rng.randint(1, 3))  # lower than one already rejected
+    else:
+        r = base + rng.randint(-2, 2)
+    if rng.random() < 0.5:
+        evs.append(dict(_forged(rng, "req", c, r, "fresh"), how=rng.choice(["flip", "trunc", "piv"])))
+    rec = _genuine(rng, c, r, "fresh")
+    evs.append(rec)
+    tail = [dict(rec)]  # the replayed recovery request
+    oc = 3 - c
+    tail.append(_genuine(rng, oc, max(0, r - rng.randint(1, W + 1)), "fresh"))  # the other sender: below ...
+    tail.append(_genuine(rng, oc, r + rng.randint(1, W + 2), rng.choice(["fresh", "none"])))  # ... and above
+    tail += [dict(e) for e in rejected]  # the earlier messages again, same bytes
+    tail.append(_genuine(rng, c, r, rng.choice(["none", "old", "stale"])))  # the recovery number without the Echo
+    tail.append(_forged(rng, "req", c, r + 1, "fresh"))
+    tail.append(_genuine(rng, rng.choice([1, 2]), r + 1, "none"))
+    if rng.random() < 0.5:
+        tail.append({"k": "resp", "c": 1, "n": r + W + 7, "auth": True, "how": "genuine", "echo": "none", "v": 0})
+    rng.shuffle(tail)
+    evs += tail
+    evs += [dict(e) for e in tail if e["k"] == "req" and e["auth"]]  # and everything once more
+    return {"W": W, "init": False, "hasEcho": has_echo, "binding": "unprotect", "events": evs, "origin": "recovery-family", "seed": rng.randint(0, 2**31)}
+
+
 def sig_of(clause, s, upto, trace=None):
     """clause + configuration + the kind of event at which the clause is false
     (the history that leads there is in the replay file)."""
     start = ("init" if s["init"] else "uninit") + ("" if s.get("hasEcho", True) else "-noecho")
     if trace is not None and 0 < upto < len(trace):
         e = trace[upto]
-        what = "%s%s%s->%s" % ("response" if e["k"] == "resp" else "request", "" if e["auth"] else "-forged", {"none": "", "stale": "-staleecho", "fresh": "-freshecho"}[e["echo"]], e["res"])
+        what = "%s%s%s->%s" % ("response" if e["k"] == "resp" else "request", "" if e["auth"] else "-forged", "" if e["echo"] == "none" else "-%secho" % e["echo"], e["res"])
     else:
         what = "?"
     return "%s|%s|%s|%s" % (clause, s["binding"], start, what)
 
 
-def stats_of(trace, counters):
+SITUATIONS = (
+    "forgery genuine_after_forgery replay_of_accepted below_window above_all jump_beyond_window in_window_unseen "
+    "uninit_none uninit_stale uninit_old uninit_near uninit_fresh uninit_without_echo_recovery "
+    "response_on_initialised_window late_response_below_accepted_requests response_initialises_window "
+    # forged and tampered traffic
+    "forged_request_flip forged_request_trunc forged_request_key forged_request_ctx forged_request_piv "
+    "forged_response_flip forged_response_trunc forged_response_key forged_response_on_uninitialised_window "
+    "forged_number_inside_window forged_number_below_window forged_number_above_window "
+    "tampered_copy_before_genuine genuine_accepted_after_its_forgery replay_after_forgery_and_genuine "
+    "forged_copy_of_recovery_request "
+    # Echo recovery under adversarial orderings
+    "recovery_accepted recovery_request_replayed recovery_with_number_below_rejected_one rejected_before_recovery_arrives_again "
+    "two_senders_before_recovery other_sender_below_recovered_number request_before_recovery "
+    # window arithmetic at real sizes
+    "slide_by_W_minus_1 slide_by_W slide_by_W_plus_1 slide_by_more slide_within "
+    "near_2_40_accepted near_2_40_rejected number_2_40_minus_1_accepted"
+).split()
+
+
+def stats_of(trace, counters, top=None):
     """Which situations of the statement the recorded traces exercised (statistics only)."""
     W = trace[0]["W"]
     init = trace[0]["init"]
     has_echo = trace[0]["hasEcho"]
-    acc, forged = set(), set()
+    acc, forged, tampered = set(), set(), set()
+    closed = set()
     floor = 0
+    rejected_uninit = []  # (c, n, echo) of authentic requests rejected while uninitialised
+    senders_uninit = set()
+    recovered_by = None  # (c, n) of the request that initialised the window
+    prev_idx = 0 if init else -2
     for e in trace[1:]:
         n = e["n"]
+        high = top is not None and n >= top - NEAR
         if e["k"] == "resp":
-            if init:
+            if not e["auth"]:
+                counters["forged_response_" + e["how"]] += 1
+                if not init:
+                    counters["forged_response_on_uninitialised_window"] += 1
+            elif init:
                 counters["response_on_initialised_window"] += 1
                 if acc and n < max(acc):
                     counters["late_response_below_accepted_requests"] += 1
@@ -423,37 +867,123 @@ def stats_of(trace, counters):
                 init, floor = True, n
             else:
                 counters["uninit_without_echo_recovery"] += 1
+            prev_idx = e["idx"]
             continue
         if not e["auth"]:
             counters["forgery"] += 1
+            counters["forged_request_" + e["how"]] += 1
             forged.add(n)
+            if e["how"] in ("flip", "trunc"):
+                tampered.add((e["c"], n, e["echo"]))
+            if init:
+                if n < floor:
+                    counters["forged_number_below_window"] += 1
+                elif acc and n > max(acc):
+                    counters["forged_number_above_window"] += 1
+                else:
+                    counters["forged_number_inside_window"] += 1
+            elif e["echo"] == "fresh" and e["how"] in ("flip", "trunc", "piv"):
+                counters["forged_copy_of_recovery_request"] += 1
+            prev_idx = e["idx"]
             continue
+        if (e["c"], n, e["echo"]) in tampered:
+            counters["tampered_copy_before_genuine"] += 1
         if not init:
             counters["uninit_" + e["echo"]] += 1
+            counters["request_before_recovery"] += 1
+            senders_uninit.add(e["c"])
+            if len(senders_uninit) == 2:
+                counters["two_senders_before_recovery"] += 1
             if not has_echo:
                 counters["uninit_without_echo_recovery"] += 1
-        elif n in acc:
-            counters["replay_of_accepted"] += 1
-        elif n < floor:
-            counters["below_window"] += 1
-        elif not acc or n > max(acc):
-            counters["above_all"] += 1
-            if acc and n - max(acc) > W:
-                counters["jump_beyond_window"] += 1
+            if e["res"] == "acc":
+                counters["recovery_accepted"] += 1
+                recovered_by = (e["c"], n, e["echo"])
+                if any(m > n for _c, m, _e in rejected_uninit):
+                    counters["recovery_with_number_below_rejected_one"] += 1
+            else:
+                rejected_uninit.append((e["c"], n, e["echo"]))
         else:
-            counters["in_window_unseen"] += 1
-        if n in forged and init:
-            counters["genuine_after_forgery"] += 1
+            if recovered_by == (e["c"], n, e["echo"]):
+                counters["recovery_request_replayed"] += 1
+            if recovered_by and (e["c"], n, e["echo"]) in rejected_uninit:
+                counters["rejected_before_recovery_arrives_again"] += 1
+            if recovered_by and e["c"] != recovered_by[0] and e["echo"] == "fresh" and n < recovered_by[1]:
+                counters["other_sender_below_recovered_number"] += 1
+            if n in acc:
+                counters["replay_of_accepted"] += 1
+                if n in closed:
+                    counters["replay_after_forgery_and_genuine"] += 1
+            elif n < floor:
+                counters["below_window"] += 1
+            elif not acc or n > max(acc):
+                counters["above_all"] += 1
+                if acc and n - max(acc) > W:
+                    counters["jump_beyond_window"] += 1
+            else:
+                counters["in_window_unseen"] += 1
+            if n in forged:
+                counters["genuine_after_forgery"] += 1
+                if e["res"] == "acc":
+                    counters["genuine_accepted_after_its_forgery"] += 1
+                    closed.add(n)
+        if high:
+            counters["near_2_40_accepted" if e["res"] == "acc" else "near_2_40_rejected"] += 1
+            if n == top and e["res"] == "acc":
+                counters["number_2_40_minus_1_accepted"] += 1
         if e["res"] == "acc":
+            if init and W >= 32 and prev_idx >= 0 and e["idx"] >= 0:
+                slide = e["idx"] - prev_idx
+                if slide > 0:
+                    counters["slide_by_W_minus_1" if slide == W - 1 else "slide_by_W" if slide == W else "slide_by_W_plus_1" if slide == W + 1 else "slide_by_more" if slide > W + 1 else "slide_within"] += 1
             floor = n if not init else max(floor, n - W + 1)
             init = True
             acc.add(n)
             forged.discard(n)
+        prev_idx = e["idx"]
 
 
-def validate_and_report(rep, wd, scheds, results, label):
-    traces = [r["trace"] for r in results]
-    verdicts, _r = oscore_env.validate_traces(wd, "ReplayWindowTrace", TRACE_CFG, traces, timeout=900)
+def _validate_batch(args):
+    traces, want_counts = args
+    with tlc.Workdir() as wd:
+        verdicts, r = oscore_env.validate_traces(wd, "ReplayWindowTrace", TRACE_CFG, traces, timeout=1500)
+        counts = {}
+        if want_counts:
+            for v in tlc.printed_values(r, "COUNT"):
+                counts[v[1] - 1] = v[2]
+    return verdicts, counts
+
+
+def validate_and_report(rep, wd, scheds, results, label, clause_counts=None, parallel=1):
+    """TLC judges every recorded trace (identical traces once; large sets in several TLC processes side by side)."""
+    keys, uniq, index = [], [], {}
+    for r in results:
+        t = [{k: v for k, v in e.items() if k != "why"} for e in r["trace"]]
+        key = json.dumps(t, sort_keys=True)
+        if key not in index:
+            index[key] = len(uniq)
+            uniq.append(t)
+        keys.append(index[key])
+    nb = max(1, min(parallel, len(uniq) // 500))
+    batches = [uniq[i::nb] for i in range(nb)]
+    if nb == 1:
+        outs = [_validate_batch((batches[0], clause_counts is not None))]
+    else:
+        from concurrent.futures import ThreadPoolExecutor
+
+        with ThreadPoolExecutor(nb) as ex:
+            outs = list(ex.map(_validate_batch, [(b, clause_counts is not None) for b in batches]))
+    uv = [None] * len(uniq)
+    ucount = [None] * len(uniq)
+    for bi, (verdicts, counts) in enumerate(outs):
+        for j, v in enumerate(verdicts):
+            uv[bi + j * nb] = v
+            ucount[bi + j * nb] = counts.get(j)
+    if clause_counts is not None:
+        for k in keys:  # every execution counts, also the ones whose trace equals another's
+            for c, m in (ucount[k] or {}).items():
+                clause_counts[c] = clause_counts.get(c, 0) + m
+    verdicts = [uv[k] for k in keys]
     ndrift = 0
     for s, res, v in zip(scheds, results, verdicts):
         bad = sorted(c for c in v["bad"] if c.startswith("C12_"))
@@ -462,15 +992,16 @@ def validate_and_report(rep, wd, scheds, results, label):
             rep.violation(
                 clause,
                 sig_of(clause, s, at, res["trace"]),
-                "clause %s false at event %d of a recorded %s execution (W=%d, %s start): %s"
-                % (clause, at, s["binding"], s["W"], "initialised" if s["init"] else "uninitialised", json.dumps(res["trace"][max(1, at - 3) : at + 1])),
+                "clause %s false at event %d of a recorded %s execution (W=%d, %s start, %s): %s"
+                % (clause, at, s["binding"], s["W"], "initialised" if s["init"] else "uninitialised", s.get("origin", "?"), json.dumps(res["trace"][max(1, at - 3) : at + 1])),
                 {"schedule": s, "trace": res["trace"], "firstBad": at},
             )
         if "DRIFT_model" in v["bad"] and not bad:
             ndrift += 1
             if ndrift <= 3:
-                rep.add_drift("%s: recorded %s trace is not a behaviour of the ReplayWindow model although no clause is false (W=%d)" % (label, s["binding"], s["W"]))
-    return len(traces), ndrift
+                rep.add_drift("%s: recorded %s trace is not a behaviour of the ReplayWindow model although no clause is false (W=%d, %s)" % (label, s["binding"], s["W"], s.get("origin", "?")))
+    rep.coverage["distinct_traces_judged_by_tlc"] = rep.coverage.get("distinct_traces_judged_by_tlc", 0) + len(uniq)
+    return len(results), ndrift
 
 
 def replay(rep, args):
@@ -492,54 +1023,111 @@ def work(rep, args):
     oscore, _ = _env()
     for d in oscore_env.tree_deviations():
         rep.add_drift("tree under test deviates from the RFC 8613 Appendix C vectors: " + d)
-    nsim = 400 if quick else 4000
-    nrand = 300 if quick else 6000
+    nsim = 200 if quick else 4000
+    nrand = 200 if quick else 6000
+    nbits = 60 if quick else 1200
+    nfam = 80 if quick else 2400
+    phases = {}
+    t_last = [time.time()]
+
+    def phase(name):
+        now = time.time()
+        phases[name] = round(phases.get(name, 0) + now - t_last[0], 1)
+        t_last[0] = now
+
     with tlc.Workdir() as wd:
-        wd.write("RW_mc.cfg", MC_CFG % {"maxlen": 5 if quick else 6})
+        wd.write("RW_mc.cfg", MC_CFG % {"maxlen": 5 if quick else 6, "maxn": 6 if quick else 7})
+        bits_runs = [("1, 2, 3, 4", "NumsQuick"), ("8", "NumsSparse")] if quick else [("1, 2, 3, 4", "NumsContiguous"), ("8", "NumsSparse"), ("8", "NumsLow")]
+        for i, (ws, nums) in enumerate(bits_runs):
+            wd.write("RW_bits%d.cfg" % i, BITS_CFG % {"ws": ws, "nums": nums, "top": TOP})
         import threading
 
         box = {}
+        ncpu = os.cpu_count() or 4
 
-        def run_mc():  # the exhaustive run proceeds while edges and behaviours are generated and driven
-            box["mc"] = tlc.run(wd, "ReplayWindow.tla", "RW_mc.cfg", timeout=1800 if quick else 3400, workers=max(2, (os.cpu_count() or 4) - 4))
+        def run_mc():  # the exhaustive runs proceed while edges and behaviours are generated and driven
+            t0 = time.time()
+            box["mc"] = tlc.run(wd, "ReplayWindow.tla", "RW_mc.cfg", timeout=1800 if quick else 3400, workers=max(2, ncpu // 2 - 2 if quick else ncpu - 6))
+            box["mc_wall"] = round(time.time() - t0, 1)
 
-        th = threading.Thread(target=run_mc)
-        th.start()
+        def run_bits():
+            t0 = time.time()
+            box["bits"] = [tlc.run(wd, "ReplayWindowBits.tla", "RW_bits%d.cfg" % i, timeout=1800 if quick else 3400, workers=max(2, ncpu // 8 if quick else ncpu // 4)) for i in range(len(bits_runs))]
+            box["bits_wall"] = round(time.time() - t0, 1)
+
+        threads = [threading.Thread(target=run_mc), threading.Thread(target=run_bits)]
+        for th in threads:
+            th.start()
+        # edge enumeration and the two simulations: three single-worker TLC runs side by side
         wd.write("RW_edge.cfg", EDGE_CFG)
-        edges = tlc.run(wd, "ReplayWindow.tla", "RW_edge.cfg", workers=1, timeout=1200)
+        wd.write("RW_sim.cfg", SIM_CFG)
+        wd.write("RW_bitsim.cfg", BITS_SIM_CFG % {"maxlen": 48, "top": TOP, "jump": 20})
+        simdir, bsimdir = wd.file("sim"), wd.file("bsim")
+        os.makedirs(simdir)
+        os.makedirs(bsimdir)
+        gen = {}
+
+        def run_gen(key, *a, **kw):
+            gen[key] = tlc.run(wd, *a, **kw)
+
+        gthreads = [
+            threading.Thread(target=run_gen, args=("edges", "ReplayWindow.tla", "RW_edge.cfg"), kwargs=dict(workers=1, timeout=1200)),
+            threading.Thread(target=run_gen, args=("sim", "ReplayWindow.tla", "RW_sim.cfg"), kwargs=dict(workers=1, timeout=600, simulate="file=%s/tr,num=%d" % (simdir, nsim), depth=18, seed=args.seed + 1)),
+            # arrival sequences for the real window size, from the transcription of the window arithmetic
+            threading.Thread(target=run_gen, args=("bsim", "ReplayWindowBits.tla", "RW_bitsim.cfg"), kwargs=dict(workers=1, timeout=900, simulate="file=%s/tr,num=%d" % (bsimdir, nbits), depth=50, seed=args.seed + 7)),
+        ]
+        for th in gthreads:
+            th.start()
+        for th in gthreads:
+            th.join()
+        edges, sim, bsim = gen.get("edges"), gen.get("sim"), gen.get("bsim")
+        if edges is None or sim is None or bsim is None:
+            raise MachineryError("a TLC generation run did not complete")
         tlc.need_ok_run(edges, "ReplayWindow edge enumeration")
         edge_vals = tlc.printed_values(edges, "EDGE")
         if len(edge_vals) < 1000:
             raise MachineryError("edge enumeration produced only %d edges" % len(edge_vals))
-        wd.write("RW_sim.cfg", SIM_CFG)
-        simdir = wd.file("sim")
-        os.makedirs(simdir)
-        sim = tlc.run(wd, "ReplayWindow.tla", "RW_sim.cfg", workers=1, timeout=600, simulate="file=%s/tr,num=%d" % (simdir, nsim), depth=18, seed=args.seed + 1)
         tlc.need_ok_run(sim, "ReplayWindow simulation")
         behaviours = tlc.read_sim_traces(os.path.join(simdir, "tr"))
+        tlc.need_ok_run(bsim, "ReplayWindowBits simulation")
+        if bsim.violated:
+            raise MachineryError("ReplayWindowBits simulation violates %s (design-level disagreement of the transcribed arithmetic with the statement)\n%s" % (bsim.violated, bsim.out[-3000:]))
+        bits_behaviours = tlc.read_sim_traces(os.path.join(bsimdir, "tr"))
+        if len(bits_behaviours) < nbits // 2:
+            raise MachineryError("ReplayWindowBits simulation produced only %d behaviours" % len(bits_behaviours))
+        phase("tlc_edges_and_simulations")
 
         model = schedules_from_edges(edge_vals)
         if quick:
-            # initialised starts: all edges through ReplayWindow directly and a seeded half through the (slower)
-            # full unprotect; uninitialised starts, responses: always through unprotect (nothing re-implemented)
-            sample = set(rng.sample(range(len(model)), len(model) // 2))
+            # quick: initialised starts: all edges through ReplayWindow directly and a seeded sixth through the
+            # (slower) full unprotect; uninitialised starts and authentic responses (never re-implemented:
+            # unprotect only): a seeded third; thorough: everything
+            sample = set(rng.sample(range(len(model)), len(model) // 6))
+            sample_u = set(rng.sample(range(len(model)), len(model) // 3))
         else:
-            sample = set(range(len(model)))
+            sample = sample_u = set(range(len(model)))
         model += schedules_from_behaviours(behaviours)
+        model += schedules_from_behaviours(bits_behaviours, origin="bits-sim", top=TOP)
         scheds, expected = [], []
         for i, (s, exp) in enumerate(model):
             only_requests = all(e["k"] == "req" for e in s["events"])
             if s["init"] and only_requests:
                 scheds.append(dict(s, binding="direct"))
                 expected.append(exp)
-            if s["origin"] != "edge" or i in sample or not s["init"] or not only_requests:
-                scheds.append(dict(s, binding="unprotect", seed=i))
+            forged_resp = s["events"][-1]["k"] == "resp" and not s["events"][-1]["auth"]
+            if s["origin"] != "edge" or i in sample or (i in sample_u and (not s["init"] or (not only_requests and not forged_resp))):
+                s2 = decorate(s, random.Random(args.seed * 7919 + i)) if s["origin"] == "edge" else s
+                scheds.append(dict(s2, binding="unprotect", seed=i))
                 expected.append(exp)
         n_model = len(scheds)
         for i in range(nrand):
             scheds.append(random_schedule(rng, "unprotect" if i % 4 else "direct"))
+        for i in range(nfam):
+            scheds.append(forgery_schedule(rng) if i % 2 else recovery_schedule(rng))
         scheds = [x for x in scheds if x["binding"] == "unprotect" or x["events"]]
+        phase("schedules")
         results = run_all(scheds)
+        phase("driving_real_code")
         for s, res in zip(scheds, results):
             if "error" in res:
                 raise MachineryError("driver failed on schedule %s\n%s" % (json.dumps(s)[:400], res["error"]))
@@ -550,7 +1138,7 @@ def work(rep, args):
             if d:
                 ndrift_cmp += 1
                 if ndrift_cmp <= 5:
-                    rep.add_drift("model behaviour not reproduced by implementation (%s, W=%d, %s): %s" % (s["binding"], s["W"], "init" if s["init"] else "uninit", d))
+                    rep.add_drift("model behaviour not reproduced by implementation (%s, %s, W=%d, %s): %s" % (s["binding"], s["origin"], s["W"], "init" if s["init"] else "uninit", d))
         unexpected = 0
         for s, res in zip(scheds, results):
             for u in res["meta"].get("unexpected", ()):
@@ -558,69 +1146,105 @@ def work(rep, args):
                 if unexpected <= 5:
                     rep.add_drift("%s binding, W=%d: %s" % (s["binding"], s["W"], u))
         # code -> spec
-        validated, ndrift_tr = validate_and_report(rep, wd, scheds, results, "trace validation")
-        th.join()
+        clause_counts = {}
+        validated, ndrift_tr = validate_and_report(rep, wd, scheds, results, "trace validation", clause_counts, parallel=3)
+        phase("tlc_trace_validation")
+        for th in threads:
+            th.join()
+        phase("waiting_for_exhaustive_runs")
         mc = box.get("mc")
         if mc is None:
             raise MachineryError("ReplayWindow model check did not run")
         tlc.need_ok_run(mc, "ReplayWindow model check")
+        bits = box.get("bits")
+        if not bits or len(bits) != len(bits_runs):
+            raise MachineryError("ReplayWindowBits model check did not run")
+        cex = []
         if mc.error_trace:
-            cex = [dict(x, binding="unprotect", seed=1) for x, _e in schedules_from_behaviours([mc.error_trace])]
+            cex += [dict(x, binding="unprotect", seed=1) for x, _e in schedules_from_behaviours([mc.error_trace])]
+        for b in bits:
+            tlc.need_ok_run(b, "ReplayWindowBits model check")
+            if b.error_trace:
+                for x, _e in schedules_from_behaviours([b.error_trace], origin="bits-cex", top=TOP):
+                    cex += [dict(x, binding="unprotect", seed=1), dict(x, binding="direct")]
+        if cex:
             cres = run_all(cex)
             for s_, r_ in zip(cex, cres):
                 if "error" in r_:
                     raise MachineryError("driver failed on counterexample\n%s" % r_["error"])
             validate_and_report(rep, wd, cex, cres, "counterexample")
-        if mc.violated:
-            rep.notes.append("model check reported %s; counterexample replayed on the implementation" % mc.violated)
+        model_violated = list(mc.violated) + [v for b in bits for v in b.violated]
+        if model_violated:
+            rep.notes.append("model check reported %s; counterexample replayed on the implementation" % model_violated)
             if not rep.violations:
-                raise MachineryError("ReplayWindow model violates %s but the counterexample does not reproduce on the implementation" % mc.violated)
-        counters = {k: 0 for k in ("forgery", "genuine_after_forgery", "replay_of_accepted", "below_window", "above_all", "jump_beyond_window", "in_window_unseen", "uninit_none", "uninit_stale", "uninit_fresh", "uninit_without_echo_recovery", "response_on_initialised_window", "late_response_below_accepted_requests", "response_initialises_window")}
+                raise MachineryError("the model violates %s but the counterexample does not reproduce on the implementation" % model_violated)
+        counters = {k: 0 for k in SITUATIONS}
         noproj = 0
         shapes = set()
-        for res in results:
-            stats_of(res["trace"], counters)
+        by_origin = {}
+        for s, res in zip(scheds, results):
+            stats_of(res["trace"], counters, s.get("top"))
             if any(e["idx"] == -1 for e in res["trace"][1:]):
                 noproj += 1
-            shapes.add(tuple((e["res"], e["auth"]) for e in res["trace"][1:]))
-        if min(counters.values()) == 0 and not rep.violations:
-            raise MachineryError("a situation of the statement was never exercised: %s" % counters)
+            shapes.add(tuple((e["res"], e["how"]) for e in res["trace"][1:]))
+            o = by_origin.setdefault(s["origin"] + "/" + s["binding"], [0, 0])
+            o[0] += 1
+            o[1] += len(res["trace"]) - 1
+        never = sorted(k for k, v in counters.items() if v == 0)
+        if never and not rep.violations and not noproj:
+            raise MachineryError("situations of the statement never exercised: %s" % never)
         if noproj:
             rep.notes.append("window projection (_index/_bitfield) unavailable in %d traces: black-box validation only" % noproj)
         echo_x = sum(r["meta"].get("echo_exchanges", 0) for r in results)
-        pick = [0, n_model - 1, n_model, len(scheds) - 1]
+        old_x = sum(r["meta"].get("old_exchanges", 0) for r in results)
+        pick = [0, n_model - 1, n_model, len(scheds) - 2, len(scheds) - 1]
         rep.coverage.update(
             {
-                "states": mc.distinct,
-                "transitions": mc.generated,
+                "states": mc.distinct + sum(b.distinct for b in bits),
+                "transitions": mc.generated + sum(b.generated for b in bits),
                 "depth": mc.depth,
-                "mc_constants": {"Ws": [1, 2, 3, 4], "MaxN": 7, "MaxLen": 5 if quick else 6, "start": ["initialised", "uninitialised"], "echo_recovery": ["configured", "None"], "events": ["request (authentic/forged, Echo none/stale/fresh)", "response with own Partial IV"]},
+                "mc_ReplayWindow": {"states": mc.distinct, "transitions": mc.generated, "depth": mc.depth, "wall_s": box.get("mc_wall")},
+                "mc_constants": {"Ws": [1, 2, 3, 4], "MaxN": 6 if quick else 7, "MaxLen": 5 if quick else 6, "start": ["initialised", "uninitialised"], "echo_recovery": ["configured", "None"], "events": ["request (authentic/forged, Echo none/stale/fresh)", "response with own Partial IV (authentic/forged)"]},
+                "mc_ReplayWindowBits": [
+                    {"Ws": ws, "numbers": nums, "states": b.distinct, "transitions": b.generated, "depth": b.depth, "arrival_sequences": "all (unbounded length)", "invariants": ["NoBad", "Agreement", "BitsAreSeen", "BitsDecideAlike", "BitsIntAlike", "BitsMeanStatement"]}
+                    for (ws, nums), b in zip(bits_runs, bits)
+                ],
+                "mc_ReplayWindowBits_wall_s": box.get("bits_wall"),
                 "exhaustive": True,
                 "graph_edges": len(edge_vals),
                 "graph_states": edges.distinct,
                 "schedules_from_graph_edges": sum(1 for s in scheds[:n_model] if s["origin"] == "edge"),
                 "schedules_from_simulation": sum(1 for s in scheds[:n_model] if s["origin"] == "sim"),
-                "random_schedules": len(scheds) - n_model,
+                "schedules_from_bits_simulation_W32_W64": sum(1 for s in scheds[:n_model] if s["origin"] == "bits-sim"),
+                "random_schedules": sum(1 for s in scheds if s["origin"] == "random"),
+                "directed_forgery_family": sum(1 for s in scheds if s["origin"] == "forgery-family"),
+                "directed_recovery_family": sum(1 for s in scheds if s["origin"] == "recovery-family"),
+                "executions_and_events_by_origin": by_origin,
                 "traces_validated_against_impl": validated,
                 "traces_direct_ReplayWindow": sum(1 for s in scheds if s["binding"] == "direct"),
                 "traces_full_unprotect": sum(1 for s in scheds if s["binding"] == "unprotect"),
                 "events_total": sum(len(r["trace"]) - 1 for r in results),
+                "clause_evaluations_non_vacuous": clause_counts,
                 "echo_exchanges_real_4_01": echo_x,
+                "echo_exchanges_with_an_earlier_life_time": old_x,
                 "model_behaviours_reproduced_exactly": n_model - ndrift_cmp,
                 "traces_not_explained_by_model": ndrift_tr,
                 "traces_without_state_projection": noproj,
                 "situations_exercised": counters,
                 "distinct_nontrivial": len(shapes),
                 "window_sizes_real_runs": sorted({s["W"] for s in scheds}),
+                "phase_wall_s": phases,
                 "samples": [{"schedule": scheds[i], "trace": results[i]["trace"][:8]} for i in pick],
-                "checker_cmd": "tlc ReplayWindow.tla (Spec exhaustive; EdgeSpec edge enumeration; -simulate) ; tlc ReplayWindowTrace.tla on recorded traces",
+                "checker_cmd": "tlc ReplayWindow.tla (Spec exhaustive; EdgeSpec edge enumeration; -simulate) ; tlc ReplayWindowBits.tla (BitsSpec exhaustive; BitsSimSpec -simulate) ; tlc ReplayWindowTrace.tla on recorded traces",
             }
         )
     rep.assumptions += [
         oscore_env.ASSUMPTION,
         "in-memory security contexts (real CanProtect/CanUnprotect/SecurityContextUtils code, nothing persisted) as in tests/test_oscore.py",
-        "forgery = genuine request with one corrupted ciphertext/tag bit (valid-looking partial IV); AEAD assumed to reject it",
-        "exhaustive for W in 1..4, numbers 0..7, <= 6 arrivals; larger windows (default 32) by random runs validated by TLC",
+        "forgeries: a genuine message with one corrupted ciphertext/tag bit, with its ciphertext cut short, with its Partial IV rewritten, or a message protected under another master secret / another ID context with the same sender ID; AEAD assumed to reject them",
+        "exhaustive for W in 1..4, numbers 0..7, <= 6 arrivals (protocol model) and for W in {1,2,3,4,8} over all arrival sequences of a bounded number set (window arithmetic); the real size 32 by TLC-simulated and random runs validated by TLC",
+        "numbers next to 2^40-1: TLC integers are 32 bit, so the model's Top (1000000) stands for 2^40-1; the driver translates model numbers within 2^19 of Top (and the recorded window state back); the window arithmetic is translation invariant, which the real runs confirm (no drift)",
+        "the peer's senders may use sender sequence number 2^40-1 itself (the library's own sender stops one short of it); two senders sharing the peer's context model two clients of one security context",
         "the ReplayWindow-direct binding only queries is_valid and calls strike_out for authentic valid numbers on an initialised window; the uninitialised state, Echo recovery, responses and the order of checks are driven through the real unprotect() only",
         "when Echo recovery is configured an uninitialised window may be initialised from a response to a request this process sent (unprotect's try_initialize): the monitor follows the code there and treats it like an Echo round trip",
     ]
